@@ -1581,7 +1581,14 @@ macro_rules! public_decode_function{
                     first_read = 0usize; // Wasn't read from `src`!
                 }
                 DecoderResult::OutputFull => {
-                    panic!("Output buffer must have been too small.");
+                    if first_read != 1usize {
+                        panic!("Output buffer must have been too small.");
+                    }
+                    // The first byte was converted but there was no space
+                    // left for checking the second one, which isn't in
+                    // `src`. Handle it upon the next call.
+                    self.life_cycle = DecoderLifeCycle::ConvertingWithPendingBB;
+                    first_read = 0usize; // Wasn't read from `src`!
                 }
             }
             return (first_result, first_read, first_written);
